@@ -1272,7 +1272,7 @@ PyObject *item = PySequence_Fast_GET_ITEM(seq, i);
 {py_ctype} cvalue = {Py_get};
 if (PyErr_Occurred()) {{+
 Py_DECREF(seq);
-PyErr_Format(PyExc_ValueError,\t "argument '%s', index %d must be {c_type}",\t name,\t (int) i);
+PyErr_Format(PyExc_TypeError,\t "argument '%s', index %d must be {c_type}",\t name,\t (int) i);
 return -1;
 -}}
 in.push_back({work_ctor});
